@@ -145,6 +145,13 @@ theorem C14_error_is_final (P : Params) (a b : List Node) (nd : Node) (s1 : Stat
     parseNodes P (a ++ nd :: b) = .error x := by
   simp only [parseNodes, runNodes_append, ha, Except.bind, runNodes, bind, hs]
 
+/-- A chain of parses on one environment (`DIP(env)`): the second parse continues from the state the
+    first one left (parent stack, parameters, constant flags), so a chain whose first stage passes
+    its validation gives exactly what one parse of the concatenated lines gives. -/
+theorem C14_chain_of_parses (P : Params) (a b : List Node) (s1 : State) (h1 : runNodes P {} a = .ok s1) :
+    (runNodes P s1 b).bind (fun s => validate s.nodes) = parseNodes P (a ++ b) := by
+  simp only [parseNodes, runNodes_append, h1, Except.bind, bind]
+
 /-- a typed modification with another data type is rejected -/
 theorem C14_reject_type (P : Params) (e : ENode) (nd : Node) (t : Ty) (hk : nd.kind = .typed t)
     (hne : t ≠ e.ty) : modify P e nd = .error .fail := by
